@@ -4,6 +4,7 @@ go 1.22.7
 
 require (
 	github.com/RoaringBitmap/roaring v1.5.0
+	github.com/paulmach/orb v0.10.0
 	github.com/protomaps/go-pmtiles v0.0.0
 	zombiezen.com/go/sqlite v1.1.2
 )
@@ -44,7 +45,6 @@ require (
 	github.com/mattn/go-runewidth v0.0.14 // indirect
 	github.com/mitchellh/colorstring v0.0.0-20190213212951-d06e56a500db // indirect
 	github.com/ncruces/go-strftime v0.1.9 // indirect
-	github.com/paulmach/orb v0.10.0 // indirect
 	github.com/prometheus/client_golang v1.19.1 // indirect
 	github.com/prometheus/client_model v0.5.0 // indirect
 	github.com/prometheus/common v0.48.0 // indirect
